@@ -50,6 +50,7 @@ import (
 	"os"
 	"slices"
 	"sync"
+	"sync/atomic"
 	"time"
 
 	"github.com/ovh/kmip-go"
@@ -364,6 +365,7 @@ func WithDialerUnsafe(dialer DialerFunc) Option {
 // configuration options such as supported protocol versions and custom dialers.
 type Client struct {
 	lock              *sync.Mutex
+	closed            atomic.Bool
 	conn              *conn
 	version           *kmip.ProtocolVersion
 	supportedVersions []kmip.ProtocolVersion
@@ -484,6 +486,9 @@ func (c *Client) Addr() string {
 // Close terminates the client's connection and releases any associated resources.
 // It returns an error if the connection could not be closed.
 func (c *Client) Close() error {
+	// Remember that the client has been closed: without a connection there is nothing else to mark,
+	// and a later call must fail instead of dialling again.
+	c.closed.Store(true)
 	if c.conn == nil {
 		// No connection: a previous (re)connection attempt failed.
 		return nil
@@ -513,6 +518,9 @@ func (c *Client) reconnect(ctx context.Context) error {
 func (c *Client) doRountrip(ctx context.Context, msg *kmip.RequestMessage) (*kmip.ResponseMessage, error) {
 	c.lock.Lock()
 	defer c.lock.Unlock()
+	if c.closed.Load() {
+		return nil, net.ErrClosed
+	}
 	// A connection that a previous call left broken (reset, undecodable response, ...) is replaced:
 	// only end-of-stream errors are retried within a call, but no failure is allowed to stick.
 	if c.conn == nil || c.conn.broken() {
